@@ -460,3 +460,42 @@ mut('c10-new-cancel-point-before-mark', 'C10', ['C10.6'], S,
     "        # Mark event as complete if all handlers are done\n        event.event_mark_complete_if_all_handlers_completed()\n",
     "        await asyncio.sleep(0)\n        # Mark event as complete if all handlers are done\n        event.event_mark_complete_if_all_handlers_completed()\n",
     'a new suspension point before the marking step (a new key, not absorbed by F5b)')
+
+# ================================================================================================ C11
+mut('c11-narrow-except', 'C11', ['C11.1'], S,
+    "                    await self.execute_handler(event, handler, timeout=timeout)\n                except Exception as e:",
+    "                    await self.execute_handler(event, handler, timeout=timeout)\n                except ValueError as e:",
+    'only ValueError is contained')
+mut('c11-reraise-in-loop', 'C11', ['C11.1'], S,
+    "                    logger.debug(\n                        f'❌ {self} Handler {get_handler_name(handler)}#{str(id(handler))[-4:]}({event}) failed with {type(e).__name__}: {e}'\n                    )\n                    pass\n",
+    "                    if isinstance(e, TimeoutError):\n                        raise\n",
+    'timeouts propagate out of the serial loop')
+mut('c11-record-wrapped', 'C11', ['C11.2'], S,
+    "            # Record error\n            event.event_result_update(handler=handler, eventbus=self, error=e)\n",
+    "            # Record error\n            event.event_result_update(handler=handler, eventbus=self, error=RuntimeError(str(e)))\n",
+    'recorded error is a wrapper')
+mut('c11-swallow-in-execute-handler', 'C11', ['C11.2'], S,
+    "                f'❌ {self} Error in event handler {get_handler_name(handler)}({event}) -> \\n{red}{type(e).__name__}({e}){reset}\\n{_log_filtered_traceback(e)}',\n            )\n            raise\n",
+    "                f'❌ {self} Error in event handler {get_handler_name(handler)}({event}) -> \\n{red}{type(e).__name__}({e}){reset}\\n{_log_filtered_traceback(e)}',\n            )\n            raise RuntimeError('handler failed') from e\n",
+    'a different exception is propagated')
+mut('c11-await-raises', 'C11', ['C11.3'], M,
+    "            # Return the completed event without raising errors\n",
+    "            for result in self.event_results.values():\n                if result.error:\n                    raise result.error\n            # Return the completed event without raising errors\n",
+    'await raises handler errors')
+mut('c11-wrap-error', 'C11', ['C11.4'], M,
+    "                raise original_error\n", "                raise RuntimeError(str(original_error))\n",
+    'accessor raises a wrapper')
+mut('c11-raise-when-flag-false', 'C11', ['C11.4'], M,
+    "        if raise_if_any and error_results:\n", "        if error_results:\n",
+    'accessor raises although raise_if_any is false')
+mut('c11-raise-first-included', 'C11', ['C11.4'], M,
+    "            original_error = failing_result.error or cast(Any, failing_result.result)\n",
+    "            original_error = ValueError(f'handler {failing_handler} failed')\n",
+    'raised object is not the recorded one')
+mut('c11-no-conversion', 'C11', ['C11.5'], M,
+    "        if 'result' in kwargs and isinstance(kwargs['result'], BaseException):", "        if False and 'result' in kwargs and isinstance(kwargs['result'], BaseException):",
+    'returned exception objects are stored as completed results')
+mut('c11-conversion-order', 'C11', ['C11.5'], M,
+    "            kwargs['error'] = kwargs['result']\n            kwargs['status'] = 'error'\n            kwargs['result'] = None\n",
+    "            kwargs['result'] = None\n            kwargs['error'] = kwargs['result']\n            kwargs['status'] = 'error'\n",
+    'error set from the already-cleared result')
